@@ -372,6 +372,14 @@ func checkSyntaxInput(data []byte, exp *synExp) (vs []core.Violation, accepted b
 			want[m.Byte] = m
 		}
 		for _, p := range positions {
+			if p.end {
+				// an end position: the specification's token that ends there (its start + its length in bytes)
+				if m, ok := want[p.pos.Byte-len(p.text)]; !ok || concrete.Str(m.Text) != p.text {
+					core.NoteDrift(fmt.Sprintf("%s at byte %d: the specification has no token %q ending there on %s", p.what, p.pos.Byte, p.text, q))
+					break
+				}
+				continue
+			}
 			if m, ok := want[p.pos.Byte]; !ok || m.Line != p.pos.Line || m.Col != p.pos.LineRune {
 				core.NoteDrift(fmt.Sprintf("position of %s at byte %d not predicted by the specification on %s", p.what, p.pos.Byte, q))
 				break
@@ -452,12 +460,13 @@ func quoteArgs(verb string, it mfItem) mfItem {
 
 // openerArgs: directory arguments (replacement targets without version, use directories) end in "//" or "/*"
 func openerArgs(verb string, it mfItem, opener string) mfItem {
+	// (the renderer quotes directory arguments that need it)
 	switch verb {
 	case "use":
-		it.P = "\"" + it.P + opener + "\""
+		it.P = it.P + opener
 	case "replace":
 		if it.Nv == "" {
-			it.Np = "\"" + it.Np + opener + "\""
+			it.Np = it.Np + opener
 		}
 	}
 	return it
@@ -569,11 +578,11 @@ func checkWellFormed(c *core.Case) ([]core.Violation, bool) {
 		{name: "go-patch-version", gover: "1.21.0", noSpec: true}, {name: "go-rc-version", gover: "1.21rc2", noSpec: true}, {name: "go-beta-version", gover: "1.23beta1", noSpec: true},
 		{name: "line-starting-with-modules", pre: "require modules.example.com/x v1.0.0\n", noSpec: true},
 		{name: "block-line-starting-with-modules", pre: "require (\n\tmodules.example.com/x v1.0.0\n\tmodule.example.com/y v1.0.0\n)\n", noSpec: true},
-		{name: "dir-with-backslash-and-space", opener: "\\\\my dir", noSpec: true}, {name: "dir-with-tilde-and-bar", opener: "/~w|x", noSpec: true},
+		{name: "dir-with-backslash-and-space", opener: "\\my dir", noSpec: true}, {name: "dir-with-tilde-and-bar", opener: "/~w|x", noSpec: true},
 		{name: "comment-trailing-space", tws: true, noSpec: true}, {name: "comment-trailing-space-crlf", tws: true, crlf: true, noSpec: true}}
 	for _, v := range variants {
 		text := renderVariant(in.Layout, v)
-		if v.quote || v.opener != "" {
+		if v.quote {
 			text = strings.Replace(text, "\"\\\"", "\"", -1)
 			text = strings.Replace(text, "\\\"\"", "\"", -1)
 		}
@@ -598,7 +607,13 @@ func checkWellFormed(c *core.Case) ([]core.Violation, bool) {
 				st, _ := projectMod(f)
 				return st, nil
 			}
+			if in.Kind == "work" && (v.pre != "" || v.modblk) {
+				continue
+			}
 			st1, err := parse(text)
+			if err != nil && v.noSpec {
+				continue // this rendering is not a file of this kind (e.g. a back-slashed replacement directory in go.mod)
+			}
 			if err != nil {
 				core.NoteDrift(fmt.Sprintf("well-formed layout (%s) rejected by the strict parser: %v\n%s", v.name, err, text))
 				continue
